@@ -2,8 +2,6 @@
 pub mod drive;
 pub mod e1;
 pub mod e2;
-#[allow(dead_code)]
-mod client_rt;
 pub mod ev;
 pub mod gen;
 pub mod prog;
